@@ -39,6 +39,13 @@ pub trait Crdt {
     fn persist_op(_op: &Self::Op) -> Option<(Result<String, String>, Option<Self::Op>)> {
         None
     }
+    /// hook: a new case starts (types that keep a per-case registry, e.g. merkle node names)
+    fn new_case() {}
+    /// hook: `op` is about to be stored under `name` (by `G`/`GA` or `O`); `None` rejects the definition
+    /// (`nogen` / `badop`).  Default: accept unchanged.
+    fn admit(_name: &str, op: Self::Op) -> Option<Self::Op> {
+        Some(op)
+    }
     /// the dot an op carries, if any (freshness oracle of C07)
     fn op_dot(_op: &Self::Op) -> Option<String> {
         None
@@ -64,6 +71,7 @@ pub struct Machine<T: Crdt> {
 
 impl<T: Crdt> Machine<T> {
     pub fn new(n: usize) -> Self {
+        T::new_case();
         Machine {
             reps: (0..n).map(|_| T::init()).collect(),
             know: (0..n).map(|_| BTreeSet::new()).collect(),
@@ -91,7 +99,7 @@ impl<T: Crdt> Machine<T> {
                 } else {
                     (toks.get(2)?.parse().ok()?, *toks.get(3)?, &toks[4..])
                 };
-                match T::gen(&self.reps[r], actor, args) {
+                match T::gen(&self.reps[r], actor, args).and_then(|op| T::admit(name, op)) {
                     None => Some("nogen".into()),
                     Some(op) => {
                         // freshness oracle: a generated dot must not be carried by any earlier op
@@ -119,7 +127,7 @@ impl<T: Crdt> Machine<T> {
             }
             "O" => {
                 let name = *toks.get(1)?;
-                match T::parse_op(&toks[2..]) {
+                match T::parse_op(&toks[2..]).and_then(|op| T::admit(name, op)) {
                     None => Some("badop".into()),
                     Some(op) => {
                         let shown = T::show_op(&op);
